@@ -55,7 +55,7 @@ def variant(name, patterns, services=(ID1, ID2, ID3, ID4, ID5, ID6, ID7, ID8, ID
 
 # one pattern OBJECT referenced by two variants whose identification services have the same short
 # name but are different services (another request): each variant resolves the name in its own layer
-ID1B = ident("ident1", 0xF1A0, [V("v")])
+ID1B = ident("ident1", 0xF1A0, [V("pad"), V("v")])  # another request AND another response layout
 SHARED_PATTERN = [mp("5", "ident1", "v")]
 CANDIDATES = {
     "shared-pattern-object": [variant("v1", [SHARED_PATTERN], services=(ID1B, ID2)),
